@@ -311,7 +311,7 @@ def shard(ctx: Ctx):
     quick = ctx.tier == 'quick'
     feats = strict_features()
     sizes = gen.QUICK if quick else gen.THOROUGH
-    n = 100 if quick else 2500
+    n = 100 if quick else 900
 
     @st.composite
     def cases(draw, feats=feats):
@@ -332,4 +332,4 @@ def shard(ctx: Ctx):
         def zcases(draw, zf=zf):
             return draw(gen.schemas(zf, sizes, min_tables=1)), draw(gen.styles())
 
-        hyp_run(ctx, f'zone:{feat}', zcases(), lambda c, feat=feat: run(c, f'zone:{feat}'), 4 if quick else 120)
+        hyp_run(ctx, f'zone:{feat}', zcases(), lambda c, feat=feat: run(c, f'zone:{feat}'), 4 if quick else 30)
